@@ -33,6 +33,9 @@ type LcListener struct {
 	UnsubUs int    `json:"unsub_us"`
 	Via     string `json:"via"` // conn | context
 	AtClose bool   `json:"at_close,omitempty"` // register when the shutdown is being initiated instead of at RegUs
+	// SelfUnsub: the callback itself calls the unsubscribe function it got at registration (cleanup code
+	// that runs the same path whether the connection closed or the listener was dropped)
+	SelfUnsub bool `json:"self_unsub,omitempty"`
 }
 
 type LcPlan struct {
@@ -74,7 +77,7 @@ func (lifecycleScn) Generate(g *simrt.Rng, tier string) any {
 	}
 	k := 1 + g.IntN(10)
 	for i := 0; i < k; i++ {
-		p.Listeners = append(p.Listeners, LcListener{Side: simrt.Pick(g, "client", "client", "server"), RegUs: us(), Unsub: g.Bool(0.4), UnsubUs: us(), Via: simrt.Pick(g, "conn", "context"), AtClose: g.Bool(0.4)})
+		p.Listeners = append(p.Listeners, LcListener{Side: simrt.Pick(g, "client", "client", "server"), RegUs: us(), Unsub: g.Bool(0.4), UnsubUs: us(), Via: simrt.Pick(g, "conn", "context"), AtClose: g.Bool(0.4), SelfUnsub: g.Bool(0.2)})
 	}
 	p.Shutdown = simrt.Pick(g, "client-close", "client-close", "server-close", "rst", "fin", "halfclose-stalled")
 	if p.Shutdown == "halfclose-stalled" {
@@ -386,11 +389,17 @@ func (r *lcRun) listenerTask(i int, cli mpx.Conn) {
 		}
 	}
 	l.tried = true
-	unsub, ok := reg(func() {
+	var unsub func()
+	var ok bool
+	unsub, ok = reg(func() {
 		l.invoked++
 		l.invokedAt = simrt.Step()
 		l.flagAtCall = flag.IsSet()
 		simrt.Logf("listener %d invoked (flag=%v)", i, l.flagAtCall)
+		if pl.SelfUnsub && unsub != nil {
+			unsub()
+			simrt.Logf("listener %d unsubscribed itself from its callback", i)
+		}
 	})
 	l.registered, l.regOK, l.regDone = true, ok, max(simrt.Step(), 1)
 	simrt.Logf("listener %d registered ok=%v", i, ok)
